@@ -12,5 +12,5 @@ try:
         pass
 except ImportError:
     pass
-TARGETS = [pc.PI + m for m in ("advance", "_overwrite")]
+TARGETS = [pc.PI + m for m in ("advance", "_overwrite", "finish")]
 LEMMAS = []
